@@ -2,8 +2,8 @@
  * orc_compiler_flag_check; orc/orcutils.c: strsplit, _strndup. */
 #include "verif.h"
 #include <stdarg.h>
-#include "../../../repo/orc/orcutils.c"
-#include "../../../repo/orc/orccompiler.c"
+#include "orcutils.c"
+#include "orccompiler.c"
 
 void orc_debug_print (int level, const char *file, const char *func, int line, const char *format, ...) { }
 static int probe_calls, probe_ok;
